@@ -378,7 +378,9 @@ func GetFilters(r Getter, path *CycleCheck, dict Dict) ([]Filter, error) {
 			var ok bool
 			pDict, ok = decodeParams.(Dict)
 			if !ok {
-				return nil, fmt.Errorf("wrong type, expected Dict but got %T", decodeParams)
+				return nil, &MalformedFileError{
+					Err: fmt.Errorf("/DecodeParms: wrong type, expected Dict but got %T", decodeParams),
+				}
 			}
 		}
 		filter, err := MakeFilter(f, pDict)
@@ -394,7 +396,7 @@ func GetFilters(r Getter, path *CycleCheck, dict Dict) ([]Filter, error) {
 		}
 		pa, ok := decodeParams.(Array)
 		if !ok && decodeParams != nil {
-			return nil, errors.New("invalid /DecodeParms field")
+			return nil, &MalformedFileError{Err: errors.New("invalid /DecodeParms field")}
 		}
 		for i, fi := range f {
 			fi, err := resolve(r, fi, false)
@@ -403,7 +405,9 @@ func GetFilters(r Getter, path *CycleCheck, dict Dict) ([]Filter, error) {
 			}
 			name, ok := fi.(Name)
 			if !ok {
-				return nil, fmt.Errorf("wrong type, expected Name but got %T", fi)
+				return nil, &MalformedFileError{
+					Err: fmt.Errorf("/Filter: wrong type, expected Name but got %T", fi),
+				}
 			}
 			var pDict Dict
 			if len(pa) > i {
@@ -415,7 +419,9 @@ func GetFilters(r Getter, path *CycleCheck, dict Dict) ([]Filter, error) {
 					var ok bool
 					pDict, ok = pai.(Dict)
 					if !ok {
-						return nil, fmt.Errorf("wrong type, expected Dict but got %T", pai)
+						return nil, &MalformedFileError{
+							Err: fmt.Errorf("/DecodeParms: wrong type, expected Dict but got %T", pai),
+						}
 					}
 				}
 			}
